@@ -83,6 +83,13 @@ def r_reset(ctx):
     else:
         ctx.ob("R-RESET", "PEP.__init__::reset-first", True, "PEP.__init__ starts by calling %s" % reset_fn.name, loc(init, first))
     ctx.unit(qualname(reset_fn))
+    # the reset routine is straight-line: no early exit, no condition
+    pc = flow.path_counts(reset_fn.body, lambda n: False)
+    jumps = [x for x in flow.stmts_of(reset_fn) if isinstance(x, (ast.Return, ast.Raise, ast.If, ast.For, ast.While, ast.Try))]
+    ctx.ob("R-RESET", "PEP.%s::unconditional" % reset_fn.name, not jumps and set(pc) == {"next"},
+           "every re-initialisation is executed on every call" if not jumps else
+           "the reset routine contains `%s` (line %d): on some path class-level state survives from earlier models"
+           % (norm_stmt(jumps[0])[:60], jumps[0].lineno), loc(reset_fn, jumps[0] if jumps else reset_fn))
     # what the reset routine assigns, on every path (top-level, unconditional statements)
     resets = {}
     for st in reset_fn.body:
@@ -646,3 +653,33 @@ def r_memo(ctx):
                "the early return clears the values of the leaves" if clears else
                "the early return (no finite optimum) neither assigns nor clears leaf values and multipliers: after a failed re-solve, "
                "eval()/eval_dual() still answer with the numbers of the previous successful solve", loc(root, st))
+
+
+def r_memo_new(ctx):
+    """No accessor of the DSL / function / problem classes memoises a solver-derived result in an attribute that the solve path does not refresh.
+    Pattern: a method tests `self.A is (not) None`, assigns `self.A` and returns it."""
+    repo = ctx.repo
+    allowed = {("Point", "eval"), ("Expression", "eval")}      # leaf memo checked by R-MEMO above (derived objects recompute)
+    n = 0
+    for c in repo.all_classes():
+        for fn in c.methods.values():
+            if fn.name == "__init__":
+                continue
+            tested = set()
+            for t in ast.walk(fn):
+                if isinstance(t, ast.Compare) and len(t.ops) == 1 and isinstance(t.ops[0], (ast.Is, ast.IsNot, ast.Eq, ast.NotEq)) \
+                        and isinstance(t.comparators[0], ast.Constant) and t.comparators[0].value is None:
+                    d = dotted(t.left)
+                    if d and d.startswith("self.") and d.count(".") == 1:
+                        tested.add(d)
+            for a in sorted(tested):
+                assigned = any(isinstance(s, ast.Assign) and any(dotted(t) == a for t in s.targets) for s in flow.stmts_of(fn, ast.Assign))
+                returned = any(isinstance(r, ast.Return) and dotted(r.value) == a for r in ast.walk(fn))
+                if assigned and returned:
+                    n += 1
+                    ok = (c.name, fn.name) in allowed
+                    ctx.ob("R-MEMO", "%s.%s::memo %s" % (c.name, fn.name, a), ok,
+                           "leaf value overwritten at each solve (derived objects recompute, see above)" if ok else
+                           "`%s` is computed once and returned from the attribute afterwards; nothing on the solve path refreshes it, so after a re-solve "
+                           "the method answers with the result of an earlier solve" % a, loc(fn, fn))
+    ctx.count("memo patterns", n)
